@@ -54,7 +54,33 @@ Theorem C16_carousel_fallback : forall (c : config) (cl : Z) (rnd : Z -> Z) (h :
 Proof. exact carousel_fallback. Qed.
 Print Assumptions C16_carousel_fallback.
 
-(* active or not, the carousel never panics and never names an unknown replica *)
+(* an active carousel on ANY committed head (the certificate may list no signer at all, repeated or unknown
+   signers, or only recent proposers): either no candidate is left and the answer is round-robin, or the
+   answer is a signer outside the last f proposers *)
+Theorem C16_carousel_active_spec : forall (c : config) (cl : Z) (rnd : Z -> Z) (h : head) (round : view) (signers : list rid),
+  h_qc h = Some signers -> carousel_active cl h round = true -> (forall s, 0 <= rnd s)%Z ->
+  (candidates (c_n c) h signers = [] /\ carousel c cl rnd h round = choose_round_robin round (c_n c))
+  \/ exists l, carousel c cl rnd h round = Ok l /\ In l signers /\ ~ In l (last_authors (c_n c) h).
+Proof. exact carousel_active_spec. Qed.
+Print Assumptions C16_carousel_active_spec.
+
+(* no committed head whatsoever makes the carousel panic (repaired code, fixes/C16-carousel-no-candidates.patch) *)
+Theorem C16_carousel_no_panic : forall (c : config) (cl : Z) (rnd : Z -> Z) (h : head) (round : view),
+  (1 <= c_n c < 2^32)%Z -> (forall s, 0 <= rnd s)%Z -> exists l, carousel c cl rnd h round = Ok l.
+Proof. exact carousel_no_panic. Qed.
+Print Assumptions C16_carousel_no_panic.
+
+(* the code before the repair: "no scheme panics" was false -- a committed head whose certificate carries a
+   non-nil signature without participants (accepted by VerifyQuorumCert when it names the genesis block)
+   divides by zero *)
+Theorem C16_carousel_no_panic_unfixed_refuted :
+  exists c cl rnd h round, (1 <= c_n c < 2^32)%Z /\ (forall s, 0 <= rnd s)%Z /\ h_qc h = Some [] /\
+    carousel_unfixed c cl rnd h round = Panic.
+Proof. exact carousel_unfixed_panics. Qed.
+Print Assumptions C16_carousel_no_panic_unfixed_refuted.
+
+(* active or not, the carousel never names an unknown replica when the certificate's signers are configured
+   (they may be repeated and fewer than a quorum) *)
 Theorem C16_carousel_valid : forall (c : config) (cl : Z) (rnd : Z -> Z) (h : head) (round : view),
   (1 <= c_n c < 2^32)%Z -> head_ok (c_n c) h -> (forall s, 0 <= rnd s)%Z ->
   exists l, carousel c cl rnd h round = Ok l /\ (1 <= Z.of_N l <= c_n c)%Z.
@@ -130,9 +156,14 @@ Example C16_rr_window_guard_needed :
   = [Ok 1; Ok 1; Ok 2]%N.
 Proof. vm_compute. reflexivity. Qed.
 
+(* n = 0 divides by zero; a head signed only by its own proposer leaves no candidate: the code before the
+   repair panics, the repaired carousel answers round-robin (view 4 mod 4 + 1); same for a signature
+   without participants *)
 Example C16_panics : choose_round_robin 5%N 0%Z = Panic
-  /\ carousel (Build_config 1%N 4%Z 0%Z None) 1%Z (fun _ => 7%Z) (Build_head 3%N (Some [2%N]) [2%N]) 4%N = Panic.
-Proof. vm_compute. split; reflexivity. Qed.
+  /\ carousel_unfixed (Build_config 1%N 4%Z 0%Z None) 1%Z (fun _ => 7%Z) (Build_head 3%N (Some [2%N]) [2%N]) 4%N = Panic
+  /\ carousel (Build_config 1%N 4%Z 0%Z None) 1%Z (fun _ => 7%Z) (Build_head 3%N (Some [2%N]) [2%N]) 4%N = Ok 1%N
+  /\ carousel (Build_config 1%N 4%Z 0%Z None) 1%Z (fun _ => 7%Z) (Build_head 1%N (Some []) [2%N]) 2%N = Ok 3%N.
+Proof. vm_compute. repeat split; reflexivity. Qed.
 
 (* an active carousel: n = 7 (f = 2), head at view 9 signed by 5 replicas, last two proposers 3 and 5;
    candidates are [1;4;6]; the draw 8 selects index 2 *)
@@ -144,8 +175,7 @@ Example C16_carousel_active_example :
   /\ head_ok 7%Z ex_head.
 Proof.
   vm_compute. repeat split; try reflexivity; try discriminate.
-  - repeat constructor; cbn; intuition discriminate.
-  - repeat constructor; discriminate.
+  repeat constructor; discriminate.
 Qed.
 
 (* reputation with integer stand-ins for the float primitives: credit once, then stale *)
